@@ -38,15 +38,17 @@ Definition f64_of_N (n : N) : N :=
   else let e := N.log2 n in (1023 + e) * 2 ^ 52 + (n - 2 ^ e) * 2 ^ (52 - e).
 
 (* ------------------------------------------------------------------ binary64 -> binary32, round to nearest even *)
+Definition p63 : N := 9223372036854775808.       (* 2^63 *)
+Definition p52 : N := 4503599627370496.          (* 2^52 *)
+Definition p31 : N := 2147483648.                (* 2^31 *)
 Definition f64_to_f32 (p : N) : N :=
-  let sign := p / 2 ^ 63 in
-  let ex := (p / 2 ^ 52) mod 2048 in
-  let m := p mod 2 ^ 52 in
-  let sbit := sign * 2 ^ 31 in
+  let sbit := if N.testbit p 63 then p31 else 0 in
+  let ex := N.land (N.shiftr p 52) 2047 in
+  let m := N.land p 4503599627370495 in               (* low 52 bits *)
   if ex =? 2047 then
-    (if m =? 0 then sbit + 2139095040 else sbit + 2143289344 + (m / 2 ^ 29) mod 2 ^ 22)
+    (if m =? 0 then sbit + 2139095040 else sbit + 2143289344 + N.land (N.shiftr m 29) 4194303)
   else
-    let M := if ex =? 0 then m else 2 ^ 52 + m in
+    let M := if ex =? 0 then m else p52 + m in
     if M =? 0 then sbit
     else
       let E := (Z.of_N (N.max ex 1) - 1075)%Z in          (* value = M * 2^E *)
@@ -54,21 +56,20 @@ Definition f64_to_f32 (p : N) : N :=
       let e32 := (b + E + 127)%Z in                        (* biased binary32 exponent if normal *)
       let shift := Z.max (b - 23) (-149 - E) in
       let Mz := Z.of_N M in
-      let q := if (shift <=? 0)%Z then (Mz * 2 ^ (- shift))%Z
+      let q := if (shift <=? 0)%Z then Z.shiftl Mz (- shift)
                else
-                 let q0 := (Mz / 2 ^ shift)%Z in
-                 let rem := (Mz mod 2 ^ shift)%Z in
-                 let half := (2 ^ (shift - 1))%Z in
+                 let q0 := Z.shiftr Mz shift in
+                 let rem := (Mz - Z.shiftl q0 shift)%Z in
+                 let half := Z.shiftl 1 (shift - 1) in
                  if (half <? rem)%Z then (q0 + 1)%Z
                  else if (rem =? half)%Z && Z.odd q0 then (q0 + 1)%Z else q0 in
-      let bits := if (1 <=? e32)%Z then ((e32 - 1) * 2 ^ 23 + q)%Z else q in
+      let bits := if (1 <=? e32)%Z then ((e32 - 1) * 8388608 + q)%Z else q in
       let bits := if (2139095040 <=? bits)%Z then 2139095040%Z else bits in
       sbit + Z.to_N bits.
 
-(* order of finite binary64 patterns *)
+(* order of finite binary64 patterns: sign-magnitude *)
 Definition f64_key (p : N) : Z :=
-  let mag := Z.of_N (p mod 2 ^ 63) in
-  if p / 2 ^ 63 =? 0 then mag else (- mag)%Z.
+  if N.testbit p 63 then (- Z.of_N (p - p63))%Z else Z.of_N p.
 
 (* ------------------------------------------------------------------ fields  (_ir._serialize_field) *)
 Definition f_str (s : bytes) : obj := OChar (match s with [] => [] | _ => [len s] end) s.
@@ -261,10 +262,17 @@ Definition dbl_max : N := 9218868437227405311.        (* 0x7FEFFFFFFFFFFFFF *)
 Definition dbl_lowest : N := 18442240474082181119.    (* 0xFFEFFFFFFFFFFFFF *)
 Definition i64_max_f : N := 4890909195324358656.      (* 2^63 as binary64 *)
 Definition i64_min_f : N := 14114281232179134464.     (* -2^63 as binary64 *)
+(* (key, pattern) of the first smallest / largest element *)
 Definition row_min (r : list N) (d : N) : N :=
-  match r with [] => d | x :: t => fold_left (fun a y => if (f64_key y <? f64_key a)%Z then y else a) t x end.
+  match r with
+  | [] => d
+  | x :: t => snd (fold_left (fun a y => let k := f64_key y in if (k <? fst a)%Z then (k, y) else a) t (f64_key x, x))
+  end.
 Definition row_max (r : list N) (d : N) : N :=
-  match r with [] => d | x :: t => fold_left (fun a y => if (f64_key a <? f64_key y)%Z then y else a) t x end.
+  match r with
+  | [] => d
+  | x :: t => snd (fold_left (fun a y => let k := f64_key y in if (fst a <? k)%Z then (k, y) else a) t (f64_key x, x))
+  end.
 Fixpoint ranges (rows : list (list N)) (ints : list bool) : list N :=
   match rows with
   | [] => []
